@@ -118,6 +118,12 @@ EXPLANATION = ("Models: Model/Retro.v (wrappers, PlatePermutation, SampleSegrega
                'Screen.subset, ScreenSubset.to_screen, subset_unobserved / subset_observed, is_observed on a screen and on a plate '
                '(Props/C13.v: Plate.merge, plates, size, __lt__, unique_sample_ids).  What the helper translations trust is listed in '
                "C14's explanation (HELPER LINKS). ")
+THEOREMS.update({
+    'C11_model_is_source_cli_args_holdout_fraction_unchanged': 'whatever the class lookups do, the namespace returned by the translated prepare_retrospective_simulation.get_args carries the --holdout-fraction value parse_args produced (it is not rescaled or re-read as a percentage)',
+})
+EXPLANATION += ("  The prepare wrapper's get_args() is re-translated on every run (configuration ARGS_GET_ARGS_PR -> Generated/SrcCliArgs.v; link and "
+                "trusted primitives: C03's evidence, theorems C03_model_is_source_cli_args_*); C11 uses its consequence that the plain arguments, "
+                "--holdout-fraction among them, reach main() unchanged. ")
 
 
 def gen(rng, tier):
